@@ -25,7 +25,8 @@ def run(res):
                  "against the regenerated table (C07_inventory_obligation)",
                  "harness vh-c07: real fluent builders -> real server over a fake Modify stream (one operation per request + barrier operation), "
                  "real Get over a fake Get stream, real rib.FromGetResponses; hook /repo/server/verif_hooks.go (RIB accessor)"],
-        assumptions=["Get runs on a quiescent RIB (no concurrent Modify; interleavings are C10/C11)",
+        extra_runs=[("c07conc", 4 if res.tier == "quick" else 40)],
+        assumptions=["the model's Get runs on a quiescent RIB; on the implementation, Gets racing with a writer and a Flush caller are additionally required to return, instance by instance, a closed state (vh-c07 c07conc; an instance is read under its lock and is closed at every moment by C02) - other interleavings are C10/C11",
                      "values are abstract codes: the codec model keeps or drops whole leaves by wrapper kind; value-level rejections by the schema "
                      "(label outside 16..2^20-1 in a stack, TTL > 255, metadata not 1..8 bytes, ...) are an input flag of the model (bad entry => FAILED), "
                      "stated by the harness from the YANG ranges and validated by the correspondence",
